@@ -48,6 +48,9 @@ def decorate(e, rnd, p=0.3):
     return wrap(walk(e))
 
 
+NCOVER = 0     # number of form-cover programs at the end of the last corpus
+
+
 def corpus(tier, seed, syntax_only=True):
     """statement programs from the seeded generator (with redundant parentheses in a third of them)"""
     rnd = random.Random(seed)
@@ -57,6 +60,15 @@ def corpus(tier, seed, syntax_only=True):
         g = oalgen.Gen(random.Random(rnd.randint(0, 10 ** 9)), maxdepth=rnd.choice([2, 3, 3, 4]),
                        parens=0.25 if k % 3 == 0 else 0.0, syntax_only=syntax_only)
         progs.append(g.program())
+    global NCOVER
+    NCOVER = 0
+    if syntax_only:
+        # every statement form of the grammar at least once (several fillings in the thorough tier)
+        for k in range(1 if tier == 'quick' else 12):
+            g = oalgen.Gen(random.Random(rnd.randint(0, 10 ** 9)), maxdepth=2, parens=0.0, syntax_only=True)
+            cover = g.form_cover()
+            NCOVER += len(cover)
+            progs += cover
     return progs
 
 
